@@ -43,6 +43,28 @@ class Obj:
         return f"Obj({self._clsname})"
 
 
+class FixedArray:
+    """A fixed-length ctypes-like array field: index and slice stores, length-checked like ctypes."""
+
+    def __init__(self, n, fill=0):
+        self.items = [fill] * n
+
+    def store(self, k, v, interp, node):
+        if isinstance(k, slice):
+            idx = range(*k.indices(len(self.items)))
+            vs = list(v)
+            if len(vs) != len(idx):
+                raise ModelRaise("ValueError(can only assign sequence of same size)")
+            for i, x in zip(idx, vs):
+                self.items[i] = x
+        elif isinstance(k, int) and not isinstance(k, bool):
+            if not -len(self.items) <= k < len(self.items):
+                raise ModelRaise("IndexError(invalid index)")
+            self.items[k] = v
+        else:
+            interp.fail(node, "array index of unsupported kind")
+
+
 class ModelRaise(Exception):
     def __init__(self, name):
         self.name = name
@@ -71,8 +93,9 @@ LIST_METHODS = {"append", "remove", "copy", "clear", "extend", "insert", "pop", 
 
 
 class Interp:
-    def __init__(self, prog: Program, intercept: Dict[str, Callable], const_env: Dict[str, Any], where=""):
+    def __init__(self, prog: Program, intercept: Dict[str, Callable], const_env: Dict[str, Any], where="", construct: Callable = None):
         self.prog = prog
+        self.construct = construct
         self.intercept = intercept  # method name -> handler(self_obj, args)
         self.const_env = const_env
         self.steps = 0
@@ -216,6 +239,13 @@ class Interp:
                             continue
                         if len(it) != n0:
                             raise ModelRaise("RuntimeError(set changed size during iteration)")
+                elif isinstance(it, (tuple, range)):
+                    for x in it:
+                        self.assign(st.target, x, env)
+                        try:
+                            self.block(st.body, env)
+                        except _Continue:
+                            continue
                 else:
                     self.fail(st, f"iteration over {type(it).__name__}")
             except _Break:
@@ -234,6 +264,13 @@ class Interp:
         if isinstance(st, ast.Continue):
             raise _Continue()
         if isinstance(st, ast.Pass):
+            return
+        if isinstance(st, ast.With):
+            for it in st.items:
+                v = self.eval(it.context_expr, env)
+                if it.optional_vars is not None:
+                    self.assign(it.optional_vars, v, env)
+            self.block(st.body, env)
             return
         if isinstance(st, ast.Try):
             # only try/finally without handlers is in the vocabulary
@@ -256,8 +293,19 @@ class Interp:
             o.set(t.attr, v)
         elif isinstance(t, (ast.Tuple, ast.List)):
             vs = list(v)
+            if len(vs) != len(t.elts):
+                self.fail(t, "unpacking length mismatch")
             for x, y in zip(t.elts, vs):
                 self.assign(x, y, env)
+        elif isinstance(t, ast.Subscript):
+            base = self.eval(t.value, env)
+            k = self.eval(t.slice, env)
+            if isinstance(base, FixedArray):
+                base.store(k, v, self, t)
+            elif isinstance(base, (list, dict, defaultdict)) and not isinstance(k, slice):
+                base[k] = v
+            else:
+                self.fail(t, "subscript store")
         else:
             self.fail(t, "assignment target")
 
@@ -335,6 +383,8 @@ class Interp:
                     ok = left is right
                 elif isinstance(op, ast.IsNot):
                     ok = left is not right
+                elif isinstance(op, (ast.Lt, ast.Gt, ast.LtE, ast.GtE)) and all(isinstance(x, (int, float)) and not isinstance(x, bool) for x in (left, right)):
+                    ok = {ast.Lt: left < right, ast.Gt: left > right, ast.LtE: left <= right, ast.GtE: left >= right}[type(op)]
                 else:
                     self.fail(e, "ordering comparison (message types may only be compared for equality / membership)")
                 res = res and ok
@@ -352,6 +402,8 @@ class Interp:
                 return base[k]
             if isinstance(base, list) and isinstance(k, int):
                 return base[k]
+            if isinstance(base, FixedArray) and isinstance(k, (int, slice)):
+                return base.items[k]
             self.fail(e, "subscript")
         if isinstance(e, ast.Call):
             return self.call(e, env)
@@ -361,7 +413,7 @@ class Interp:
             gen = e.generators[0]
             it = self.eval(gen.iter, env)
             out = []
-            seq = list(it) if isinstance(it, list) else sorted(it, key=str)
+            seq = list(it) if isinstance(it, (list, tuple, range)) else sorted(it, key=str)
             for x in seq:
                 sub = dict(env)
                 self.assign(gen.target, x, sub)
@@ -370,11 +422,31 @@ class Interp:
             return out
         if isinstance(e, ast.SetComp) and len(e.generators) == 1:
             return set(self.eval(ast.ListComp(elt=e.elt, generators=e.generators), env))
-        if isinstance(e, ast.BinOp) and isinstance(e.op, (ast.Sub, ast.BitOr, ast.BitAnd)):
+        if isinstance(e, ast.BinOp):
             l, r = self.eval(e.left, env), self.eval(e.right, env)
-            if isinstance(l, (set, frozenset)) and isinstance(r, (set, frozenset)):
+            if isinstance(e.op, (ast.Sub, ast.BitOr, ast.BitAnd)) and isinstance(l, (set, frozenset)) and isinstance(r, (set, frozenset)):
                 return {ast.Sub: l - r, ast.BitOr: l | r, ast.BitAnd: l & r}[type(e.op)]
-            self.fail(e, "arithmetic on non-sets")
+            num = lambda x: isinstance(x, (int, float)) and not isinstance(x, bool)
+            if num(l) and num(r):
+                if isinstance(e.op, ast.Add):
+                    return l + r
+                if isinstance(e.op, ast.Sub):
+                    return l - r
+                if isinstance(e.op, ast.Mult):
+                    return l * r
+                if isinstance(e.op, ast.Mod) and r != 0:
+                    return l % r
+                if isinstance(e.op, ast.FloorDiv) and r != 0:
+                    return l // r
+            self.fail(e, "arithmetic outside the vocabulary (sets: - | &; numbers: + - * % //)")
+        if isinstance(e, ast.UnaryOp) and isinstance(e.op, ast.USub):
+            v = self.eval(e.operand, env)
+            if isinstance(v, (int, float)) and not isinstance(v, bool):
+                return -v
+            self.fail(e, "negation of a non-number")
+        if isinstance(e, ast.Slice):
+            return slice(self.eval(e.lower, env) if e.lower is not None else None, self.eval(e.upper, env) if e.upper is not None else None,
+                         self.eval(e.step, env) if e.step is not None else None)
         self.fail(e, f"expression kind {type(e).__name__}")
 
     def _eq(self, a, b, node):
@@ -406,6 +478,11 @@ class Interp:
                 return tuple(args[0]) if args else ()
             if nm == "len":
                 return len(args[0])
+            if nm == "enumerate":
+                start = kwargs.get("start", args[1] if len(args) > 1 else 0)
+                return [(i + start, x) for i, x in enumerate(list(args[0]))]
+            if nm == "range" and all(isinstance(a, int) and not isinstance(a, bool) for a in args) and 1 <= len(args) <= 3:
+                return list(range(*args))
             if nm == "int" and args and isinstance(args[0], (bool, int)):
                 return int(args[0])
             if nm == "bool":
@@ -421,7 +498,11 @@ class Interp:
             args = [self.eval(a, env) for a in e.args]
             if isinstance(tgt, tuple):
                 kind = tgt[0]
+                if kind == "pyfunc":
+                    return tgt[1](*args)
                 if kind == "class":  # cd.MDF_X()
+                    if self.construct is not None:
+                        return self.construct(tgt[1])
                     return Obj(tgt[1], tgt[1].name, **{"msg_type": None})
                 if kind == "clsattr" and tgt[2] in ("from_buffer", "from_buffer_copy"):
                     # view of a received payload: the frame itself, provided the viewing class starts with msg_type
@@ -435,6 +516,9 @@ class Interp:
                     if fi.name in self.intercept:
                         return self.intercept[fi.name](selfobj, args, kwargs)
                     return self.call_method(fi, selfobj, args, kwargs)
+                if kind == "cmeth" and isinstance(tgt[1], (dict, defaultdict)) and tgt[2] in ("items", "keys", "values", "clear", "get"):
+                    return {"items": lambda: list(tgt[1].items()), "keys": lambda: list(tgt[1].keys()), "values": lambda: list(tgt[1].values()),
+                            "clear": tgt[1].clear, "get": lambda *a: tgt[1].get(*a)}[tgt[2]](*args)
                 if kind == "cmeth":
                     cont, meth = tgt[1], tgt[2]
                     if isinstance(cont, set) and meth in SET_METHODS:
